@@ -311,6 +311,10 @@ def r_bary(idx, rep, rule="R-BARY"):
                    "the same order with the same weight variables", floor=3)
     f = idx.func("distance3d.gjk._gjk_jolt::calculate_closest_points")
     n_found = 0
+    rets0 = [s_ for s_ in iter_stmts(f.node.body) if isinstance(s_, ast.Return) and isinstance(s_.value, ast.Tuple) and len(s_.value.elts) == 2]
+    if not rets0:
+        raise AnalysisError("calculate_closest_points no longer returns a pair")
+    na, nb = u(rets0[-1].value.elts[0]), u(rets0[-1].value.elts[1])
     for st in iter_stmts(f.node.body):
         if not isinstance(st, ast.If):
             continue
@@ -335,7 +339,7 @@ def r_bary(idx, rep, rule="R-BARY"):
         ok = yargs == ["Y[%d]" % i for i in range(k)] and len(w) == k
         terms = {}
         for s in body:
-            if isinstance(s, ast.Assign) and isinstance(s.targets[0], ast.Name) and s.targets[0].id in ("a", "b"):
+            if isinstance(s, ast.Assign) and isinstance(s.targets[0], ast.Name) and s.targets[0].id in (na, nb):
                 ts = []
 
                 def flat(e):
@@ -346,7 +350,7 @@ def r_bary(idx, rep, rule="R-BARY"):
                         ts.append(e)
                 flat(s.value)
                 terms[s.targets[0].id] = ts
-        for name, arrn in (("a", "P"), ("b", "Q")):
+        for name, arrn in ((na, "P"), (nb, "Q")):
             ts = terms.get(name, [])
             good = len(ts) == k
             for i, t in enumerate(ts):
@@ -355,11 +359,11 @@ def r_bary(idx, rep, rule="R-BARY"):
             ok = ok and good
         rep.check(ok, rule, key, where,
                   "weights %s from %s are not applied as sum_i w_i*P[i] / sum_i w_i*Q[i] in order: a = %s ; b = %s" % (
-                      w, yargs, " + ".join(u(t) for t in terms.get("a", [])), " + ".join(u(t) for t in terms.get("b", []))))
+                      w, yargs, " + ".join(u(t) for t in terms.get(na, [])), " + ".join(u(t) for t in terms.get(nb, []))))
     if n_found < 3:
         rep.error("R-BARY: expected the 2-, 3- and 4-point cases, found %d" % n_found)
     # the callee for k points is the k-point barycentric function
     # returned order (a, b) and the caller unpacks (a, b) as (point on A, point on B)
     rets = [s for s in iter_stmts(f.node.body) if isinstance(s, ast.Return)]
-    ok = bool(rets) and u(rets[-1].value) in ("(a, b)", "a, b")
+    ok = bool(rets) and isinstance(rets[-1].value, ast.Tuple) and len(rets[-1].value.elts) == 2
     rep.check(ok, rule, f.key + "|returns (a, b)", f.where, "calculate_closest_points must return (a, b)")
